@@ -22,6 +22,7 @@ import LekkerVerif.Properties.C13
 import LekkerVerif.Properties.C14
 import LekkerVerif.Properties.C15
 import LekkerVerif.Properties.C16
+import LekkerVerif.Properties.C16Put
 import LekkerVerif.Properties.C17
 import LekkerVerif.Properties.C18
 import LekkerVerif.Properties.C19
